@@ -195,6 +195,13 @@ def run(ctx):
         cond = [i for (i, line) in fs if not all(b.dominates(i, r) for r in b.return_blocks())]
         ctx.ob("R3", "%s|FINAL_SIZE_ERROR x%d" % (b.short, n), len(fs) >= n and len(cond) == len(fs), b.where(),
                "%d FinalSize construction(s) (%d expected), all on conditional paths: %s" % (len(fs), n, len(cond) == len(fs)))
+        oks = ok_return_sites(b)
+        for k, (i, line) in enumerate(fs):
+            root = decision_root(b, i)
+            ok = root is not None and bool(oks) and all(b.dominates(root, o) for o in oks)
+            ctx.ob("R3", "%s|final-size check #%d is evaluated before every successful return" % (b.short, k + 1), ok, b.where(line),
+                   "condition chain of the check starts at bb%s; Ok(..) built at %s; dominated: %s — a fast path returning Ok "
+                   "before the check accepts a frame that contradicts the stream's final size" % (root, oks, ok))
 
     # ---------------------------------------------------------------- R4
     for name, inserts in ((DS + "::try_accept_bi_sid", [r"ArcInputGuard::insert$", r"ArcOutputGuard::insert$", r"ListenerGuard::push_bi_stream$"]),
